@@ -34,6 +34,8 @@ const (
 	qSlice    // a slice of input strings
 	qSliceLen // len(slice of input strings)
 	qBig      // an integer ≥ 4 (counters and positions are tracked exactly only up to 3)
+	qIdx      // a position ≥ 0 in an input string (what strings.IndexByte and friends return when they find something)
+	qRepl     // an input string (key) with every byte i replaced by the constant s (strings.ReplaceAll(s, "c", "…"))
 )
 
 type qval struct {
@@ -76,6 +78,10 @@ func (v qval) String() string {
 		return fmt.Sprintf("SL@%s+%d%v", vname(v.key), v.i, v.b)
 	case qBig:
 		return "big"
+	case qIdx:
+		return "idx"
+	case qRepl:
+		return fmt.Sprintf("R@%s[%d→%q]", vname(v.key), v.i, v.s)
 	}
 	return "?"
 }
@@ -113,7 +119,7 @@ func (s *qstr) clone() *qstr {
 func (s *qstr) render() string {
 	var fl []string
 	for f, v := range s.flags {
-		fl = append(fl, fmt.Sprintf("%s%v", f.Name(), v))
+		fl = append(fl, fmt.Sprintf("%s@%p%v", f.Name(), f, v))
 	}
 	sort.Strings(fl)
 	return fmt.Sprintf("e%d %v s%x c%d w%v k%v x%v d%v", s.empty, fl, s.seen, s.cur, s.curWritten, s.consumed, s.exhausted, s.done)
@@ -235,6 +241,7 @@ type qobs struct {
 	exhausted bool
 	res       []int8 // 0 unknown, 1 true, 2 false
 	pos       token.Pos
+	lib       map[*ssa.Function]int8 // what the library's whole-string tests said (1 true, 2 false)
 }
 
 const (
@@ -261,6 +268,71 @@ type qx struct {
 	overflow   bool
 	closureFns []*ssa.Function
 	memberTab  map[*ssa.Global]string // [N]bool tables built at init from a constant string: tab[K[i]] = true
+	libPreds   map[string]*ssa.Function // stand-ins for the library's whole-string tests (strings.ContainsAny(s, "…"), …), by callee and constant
+	libName    map[*ssa.Function]string
+}
+
+// libPred: the summary of a standard-library test 'some byte of s lies in a constant set' on an input string:
+// strings.IndexByte/IndexRune/ContainsRune with an ASCII constant, strings.ContainsAny/IndexAny with an ASCII
+// constant string, strings.Contains/Index with a one-byte constant.  index: the callee returns a position.
+func (q *qx) libPred(full string, arg qval) (sum *qsummary, index, ok bool) {
+	var bytes string
+	switch full {
+	case "strings.IndexByte", "strings.IndexRune", "strings.ContainsRune", "bytes.IndexByte":
+		if arg.k != qInt || arg.i < 0 || arg.i >= 0x80 {
+			return nil, false, false
+		}
+		bytes = string([]byte{byte(arg.i)})
+	case "strings.ContainsAny", "strings.IndexAny":
+		if arg.k != qCStr || arg.s == "" {
+			return nil, false, false
+		}
+		bytes = arg.s
+	case "strings.Contains", "strings.Index":
+		if arg.k != qCStr || len(arg.s) != 1 {
+			return nil, false, false
+		}
+		bytes = arg.s
+	default:
+		return nil, false, false
+	}
+	var set uint64
+	for i := 0; i < len(bytes); i++ {
+		if bytes[i] >= 0x80 {
+			return nil, false, false
+		}
+		set |= 1 << uint(q.classOf[bytes[i]])
+	}
+	// the classes must lie wholly inside the constant
+	for c, cl := range q.alpha {
+		if set&(1<<uint(c)) == 0 {
+			continue
+		}
+		for _, b := range cl.bytes {
+			if strings.IndexByte(bytes, b) < 0 {
+				return nil, false, false
+			}
+		}
+	}
+	key := full + "|" + bytes
+	if strings.HasPrefix(full, "strings.Index") || full == "bytes.IndexByte" {
+		index = true
+		key = "strings.Index*|" + bytes
+	} else {
+		key = "strings.Contains*|" + bytes
+	}
+	key = "lib|" + bytes
+	if q.libPreds == nil {
+		q.libPreds, q.libName = map[string]*ssa.Function{}, map[*ssa.Function]string{}
+	}
+	f := q.libPreds[key]
+	if f == nil {
+		f = new(ssa.Function)
+		q.libPreds[key] = f
+		q.libName[f] = fmt.Sprintf("contains any of %q", bytes)
+		q.summaries[f] = &qsummary{fn: f, sets: []uint64{set}, ok: true}
+	}
+	return q.summaries[f], index, true
 }
 
 func (q *qx) problem(pos token.Pos, format string, args ...any) {
@@ -441,6 +513,27 @@ func isStringSlice(t types.Type) bool {
 
 // inductionIndex: v is a loop variable that starts at 0 and advances by exactly one on every back edge.
 func inductionIndex(v ssa.Value) bool {
+	// the index of a range loop over a slice: φ(−1, itself) + 1
+	if bo, ok := v.(*ssa.BinOp); ok && bo.Op == token.ADD && isConstInt(bo.Y, 1) {
+		if ph, ok := bo.X.(*ssa.Phi); ok && len(ph.Edges) >= 2 {
+			init, step := 0, 0
+			for i, e := range ph.Edges {
+				if ph.Block().Dominates(ph.Block().Preds[i]) {
+					if e != ssa.Value(bo) {
+						return false
+					}
+					step++
+				} else {
+					if !isConstInt(e, -1) {
+						return false
+					}
+					init++
+				}
+			}
+			return init == 1 && step >= 1
+		}
+		return false
+	}
 	ph, ok := v.(*ssa.Phi)
 	if !ok {
 		return false
@@ -552,6 +645,65 @@ func (q *qx) feed(st *qstate, isInput bool, b byte, pos token.Pos) {
 	}
 }
 
+// feedConst writes constant text.  When the scan stands on an input byte whose value the branches taken have
+// pinned down (its class is that one byte) and that has not been written yet, an occurrence of that byte in the
+// constant may be the input byte itself ('\'' written as the constant `'\'`): the text is first read as pure
+// quoting syntax; if the tokenizers object, each occurrence is tried as the input byte, and the first reading
+// they accept is taken.
+func (q *qx) feedConst(st *qstate, text string, pos token.Pos) {
+	try := func(t *qstate, at int) map[string]token.Pos {
+		saved := q.problems
+		q.problems = map[string]token.Pos{}
+		for j := 0; j < len(text); j++ {
+			q.feed(t, j == at, text[j], pos)
+		}
+		got := q.problems
+		q.problems = saved
+		return got
+	}
+	scratch := func() *qstate {
+		return &qstate{impl: st.impl, ref: st.ref, doneImpl: st.doneImpl, doneRef: st.doneRef}
+	}
+	commit := func(t *qstate, probs map[string]token.Pos) {
+		st.impl, st.ref, st.doneImpl, st.doneRef = t.impl, t.ref, t.doneImpl, t.doneRef
+		for m, p := range probs {
+			if _, ok := q.problems[m]; !ok {
+				q.problems[m] = p
+			}
+		}
+	}
+	t0 := scratch()
+	p0 := try(t0, -1)
+	if len(p0) == 0 {
+		commit(t0, nil)
+		return
+	}
+	var keys []ssa.Value
+	for k := range st.strs {
+		keys = append(keys, k)
+	}
+	sort.Slice(keys, func(i, j int) bool { return vname(keys[i]) < vname(keys[j]) })
+	for _, k := range keys {
+		s := st.strs[k]
+		if s.cur < 0 || s.curWritten || s.done || len(q.alpha[s.cur].bytes) != 1 {
+			continue
+		}
+		b := q.alpha[s.cur].bytes[0]
+		for j := 0; j < len(text); j++ {
+			if text[j] != b {
+				continue
+			}
+			t := scratch()
+			if p := try(t, j); len(p) == 0 {
+				s.curWritten = true
+				commit(t, nil)
+				return
+			}
+		}
+	}
+	commit(t0, p0)
+}
+
 func (q *qx) resetOutput(st *qstate) {
 	st.ref = refState{}
 	if q.sm != nil {
@@ -561,6 +713,12 @@ func (q *qx) resetOutput(st *qstate) {
 
 // feedWhole writes the whole (so far untouched) input string verbatim: every sequence of allowed bytes.
 func (q *qx) feedWhole(st *qstate, s *qstr, pos token.Pos) []*qstate {
+	return q.feedWholeRepl(st, s, pos, nil)
+}
+
+// feedWholeRepl: the whole input string is written, each byte repl.i of it as the constant repl.s (in which the
+// first occurrence of that byte is the input byte itself and everything else is quoting syntax).
+func (q *qx) feedWholeRepl(st *qstate, s *qstr, pos token.Pos, repl *qval) []*qstate {
 	if s.consumed || s.exhausted {
 		q.problem(pos, "the input string is written as a whole after some of its bytes were already written")
 		return []*qstate{st}
@@ -607,7 +765,17 @@ func (q *qx) feedWhole(st *qstate, s *qstr, pos token.Pos) []*qstate {
 				continue
 			}
 			tmp := &qstate{impl: t.impl, ref: t.ref, doneImpl: t.di, doneRef: t.dr}
-			q.feed(tmp, true, q.alpha[c].rep, pos)
+			if repl != nil && int64(q.alpha[c].rep) == repl.i {
+				at := strings.IndexByte(repl.s, byte(repl.i))
+				if at < 0 {
+					q.problem(pos, "an input byte is replaced by text that does not contain it: the byte is lost")
+				}
+				for j := 0; j < len(repl.s); j++ {
+					q.feed(tmp, j == at, repl.s[j], pos)
+				}
+			} else {
+				q.feed(tmp, true, q.alpha[c].rep, pos)
+			}
 			nt := tk{tmp.impl, tmp.ref, tmp.doneImpl, tmp.doneRef, true}
 			if !seen[nt] {
 				seen[nt] = true
@@ -616,6 +784,47 @@ func (q *qx) feedWhole(st *qstate, s *qstr, pos token.Pos) []*qstate {
 		}
 	}
 	return out
+}
+
+// readInputByte: x is the byte at position idx of the input string strX (s[i], or []byte(s)[i]).
+func (q *qx) readInputByte(st *qstate, f *qframe, x ssa.Value, strX, idx ssa.Value) []*qstate {
+	one := []*qstate{st}
+		sv := q.eval(f, strX)
+		if sv.k != qStr {
+			delete(f.env, x)
+			return one
+		}
+		s := q.strOf(st, sv.key)
+		if !inductionIndex(idx) {
+			q.problem(x.Pos(), "the input string is indexed by %s, which is not a position advancing one byte at a time from 0: the bytes are not visited in order, once each", ksym(idx))
+			delete(f.env, x)
+			return one
+		}
+		if s.cur < 0 {
+			if s.empty == 2 && !s.consumed && !s.exhausted {
+				// the first byte of a string known to be non-empty (rotated loop: the entry test was len > 0)
+				var out []*qstate
+				for c := range q.alpha {
+					if !q.allowed(s, c) {
+						continue
+					}
+					n := st.clone()
+					ns := q.strOf(n, sv.key)
+					ns.cur, ns.curWritten, ns.consumed = c, false, true
+					if q.mode == qmSummary || len(ns.flags) == 0 {
+						ns.seen |= 1 << uint(c)
+					}
+					n.top().env[x] = qval{k: qByte, i: int64(q.alpha[c].rep), key: sv.key}
+					out = append(out, n)
+				}
+				return out
+			}
+			q.problem(x.Pos(), "a byte of the input string is read without a preceding bounds test of its position against the length")
+			delete(f.env, x)
+			return one
+		}
+		f.env[x] = qval{k: qByte, i: int64(q.alpha[s.cur].rep), key: sv.key}
+		return one
 }
 
 // ---------------------------------------------------------------- execution
@@ -721,6 +930,22 @@ func (q *qx) step(st *qstate) []*qstate {
 					return one
 				}
 			}
+			// an element of []byte(s): a byte of the input string, as long as the copy is only read
+			if ia, ok := x.X.(*ssa.IndexAddr); ok {
+				if sv := q.eval(f, ia.X); sv.k == qStr {
+					onlyRead := true
+					for _, r := range referrersOf(ia) {
+						if u, ok := r.(*ssa.UnOp); !ok || u.Op != token.MUL {
+							if _, dbg := r.(*ssa.DebugRef); !dbg {
+								onlyRead = false
+							}
+						}
+					}
+					if onlyRead {
+						return q.readInputByte(st, f, x, ia.X, ia.Index)
+					}
+				}
+			}
 			// a read of a membership table built at init from a constant string
 			if ia, ok := x.X.(*ssa.IndexAddr); ok {
 				if g, ok := ia.X.(*ssa.Global); ok {
@@ -802,42 +1027,7 @@ func (q *qx) step(st *qstate) []*qstate {
 		}
 		return one
 	case *ssa.Index:
-		sv := q.eval(f, x.X)
-		if sv.k != qStr {
-			delete(f.env, x)
-			return one
-		}
-		s := q.strOf(st, sv.key)
-		if !inductionIndex(x.Index) {
-			q.problem(x.Pos(), "the input string is indexed by %s, which is not a position advancing one byte at a time from 0: the bytes are not visited in order, once each", ksym(x.Index))
-			delete(f.env, x)
-			return one
-		}
-		if s.cur < 0 {
-			if s.empty == 2 && !s.consumed && !s.exhausted {
-				// the first byte of a string known to be non-empty (rotated loop: the entry test was len > 0)
-				var out []*qstate
-				for c := range q.alpha {
-					if !q.allowed(s, c) {
-						continue
-					}
-					n := st.clone()
-					ns := q.strOf(n, sv.key)
-					ns.cur, ns.curWritten, ns.consumed = c, false, true
-					if q.mode == qmSummary || len(ns.flags) == 0 {
-						ns.seen |= 1 << uint(c)
-					}
-					n.top().env[x] = qval{k: qByte, i: int64(q.alpha[c].rep), key: sv.key}
-					out = append(out, n)
-				}
-				return out
-			}
-			q.problem(x.Pos(), "a byte of the input string is read without a preceding bounds test of its position against the length")
-			delete(f.env, x)
-			return one
-		}
-		f.env[x] = qval{k: qByte, i: int64(q.alpha[s.cur].rep), key: sv.key}
-		return one
+		return q.readInputByte(st, f, x, x.X, x.Index)
 	case *ssa.Range, *ssa.Next:
 		if r, ok := in.(*ssa.Range); ok && isStringType(r.X.Type()) {
 			if v := q.eval(f, r.X); v.k == qStr {
@@ -970,6 +1160,22 @@ func (q *qx) binop(st *qstate, f *qframe, x *ssa.BinOp) []*qstate {
 		default:
 			delete(f.env, x)
 		}
+		return one
+	case X.k == qIdx && Y.k == qInt, X.k == qInt && Y.k == qIdx:
+		// a position found (≥ 0) against a constant ≤ 0
+		small, o := Y, op
+		if X.k == qInt {
+			small, o = X, flipOp(op)
+		}
+		if small.i <= 0 {
+			if r, ok := qcmpInt(o, 0, small.i); ok {
+				if r2, _ := qcmpInt(o, 1<<20, small.i); r2 == r {
+					setB(st, r)
+					return one
+				}
+			}
+		}
+		delete(f.env, x)
 		return one
 	case X.k == qBig && Y.k == qInt, X.k == qInt && Y.k == qBig:
 		// big ≥ 4 against a small constant
@@ -1285,6 +1491,27 @@ func (q *qx) call(st *qstate, f *qframe, x *ssa.Call) []*qstate {
 		args[i] = q.eval(f, a)
 	}
 	full := cal.String()
+	if len(args) == 2 && args[0].k == qStr {
+		if sum, index, ok := q.libPred(full, args[1]); ok {
+			out := q.applySummary(st, x, sum, args[0].key)
+			if index {
+				for _, n := range out {
+					if v := n.top().env[x]; v.k == qBool && v.b {
+						n.top().env[x] = qval{k: qIdx}
+					} else {
+						n.top().env[x] = qval{k: qInt, i: -1}
+					}
+				}
+			}
+			return out
+		}
+	}
+	if full == "strings.ReplaceAll" && len(args) == 3 && args[0].k == qStr && args[1].k == qCStr && len(args[1].s) == 1 && args[1].s[0] < 0x80 && args[2].k == qCStr {
+		if cl := q.alpha[q.classOf[args[1].s[0]]]; len(cl.bytes) == 1 {
+			f.env[x] = qval{k: qRepl, key: args[0].key, i: int64(args[1].s[0]), s: args[2].s}
+			return one
+		}
+	}
 	switch {
 	case full == "strings.IndexByte" && len(args) == 2:
 		if args[0].k == qCStr && (args[1].k == qByte || args[1].k == qInt) {
@@ -1328,7 +1555,7 @@ func (q *qx) call(st *qstate, f *qframe, x *ssa.Call) []*qstate {
 				if v.i < 0 || v.i > 255 {
 					q.problem(x.Pos(), "a non-byte constant is written")
 				} else {
-					q.feed(st, false, byte(v.i), x.Pos())
+					q.feedConst(st, string([]byte{byte(v.i)}), x.Pos())
 				}
 			default:
 				q.problem(x.Pos(), "a byte of unknown value is written: the quoting cannot be followed")
@@ -1339,12 +1566,13 @@ func (q *qx) call(st *qstate, f *qframe, x *ssa.Call) []*qstate {
 			v := args[1]
 			switch v.k {
 			case qCStr:
-				for i := 0; i < len(v.s); i++ {
-					q.feed(st, false, v.s[i], x.Pos())
-				}
+				q.feedConst(st, v.s, x.Pos())
 			case qStr:
 				delete(f.env, x)
 				return q.feedWhole(st, q.strOf(st, v.key), x.Pos())
+			case qRepl:
+				delete(f.env, x)
+				return q.feedWholeRepl(st, q.strOf(st, v.key), x.Pos(), &v)
 			default:
 				q.problem(x.Pos(), "a string of unknown content is written: the quoting cannot be followed")
 			}
@@ -1420,6 +1648,24 @@ func (q *qx) applySummary(st *qstate, x *ssa.Call, sum *qsummary, key ssa.Value)
 			if !val && s0.seen&sum.sets[k] != 0 {
 				okc = false
 			}
+			// what other predicates already said about the same string
+			for f2, fl2 := range s0.flags {
+				sum2 := q.summaries[f2]
+				if sum2 == nil || f2 == sum.fn {
+					continue
+				}
+				for k2, v2 := range fl2 {
+					if k2 >= len(sum2.sets) || sum2.sets[k2] == 0 || sum.sets[k] == 0 {
+						continue
+					}
+					if v2 == 1 && !val && sum2.sets[k2]&^sum.sets[k] == 0 {
+						okc = false // a byte of a subset was found
+					}
+					if v2 == 2 && val && sum.sets[k]&^sum2.sets[k2] == 0 {
+						okc = false // no byte of a superset exists
+					}
+				}
+			}
 		}
 		if !okc {
 			continue
@@ -1451,6 +1697,14 @@ func (q *qx) finish(st *qstate, res qval, pos token.Pos) []*qstate {
 		o := qobs{pos: pos}
 		for _, s := range st.strs {
 			o.seen, o.exhausted = s.seen, s.exhausted
+			for f, fl := range s.flags {
+				if _, lib := q.libName[f]; lib && len(fl) == 1 {
+					if o.lib == nil {
+						o.lib = map[*ssa.Function]int8{}
+					}
+					o.lib[f] = fl[0]
+				}
+			}
 		}
 		vals := res.tup
 		if res.k != qTuple {
@@ -1581,6 +1835,60 @@ func (q *qx) summarise(fn *ssa.Function) (*qsummary, []string) {
 		probs = append(probs, "state space too large")
 	}
 	sum.sets = make([]uint64, nres)
+	// a predicate that scans nothing itself and answers from the library's whole-string tests: each result must be
+	// the disjunction of some of those tests, over every combination of their answers
+	viaLib := len(q.obs) > 0
+	for _, o := range q.obs {
+		if o.seen != 0 || o.exhausted || len(o.lib) == 0 {
+			viaLib = false
+		}
+	}
+	if viaLib && len(probs) == 0 {
+		for k := 0; k < nres; k++ {
+			J := map[*ssa.Function]bool{}
+			for _, o := range q.obs {
+				for f := range o.lib {
+					J[f] = true
+				}
+			}
+			for _, o := range q.obs {
+				for f, v := range o.lib {
+					if v == 1 && (k >= len(o.res) || o.res[k] != 1) {
+						delete(J, f)
+					}
+				}
+			}
+			okk := true
+			for _, o := range q.obs {
+				if k >= len(o.res) || o.res[k] == 0 {
+					okk = false
+					continue
+				}
+				any := false
+				for f := range J {
+					if o.lib[f] == 1 {
+						any = true
+					}
+					if o.lib[f] == 0 {
+						okk = false
+					}
+				}
+				if (o.res[k] == 1) != any {
+					okk = false
+				}
+			}
+			if !okk {
+				probs = append(probs, fmt.Sprintf("result %d is not 'some byte of the string lies in a fixed set': it is not the disjunction of the library tests consulted", k))
+				continue
+			}
+			for f := range J {
+				sum.sets[k] |= q.summaries[f].sets[0]
+			}
+		}
+		sort.Strings(probs)
+		sum.ok = len(probs) == 0
+		return sum, probs
+	}
 	// the sets: single-byte strings scanned to the end
 	for _, o := range q.obs {
 		if !o.exhausted || o.seen == 0 || o.seen&(o.seen-1) != 0 {
